@@ -112,24 +112,22 @@ def dv_14 : List (Position × Disposition) :=
 def dv_15 : List (Position × Disposition) :=
   [(.queryField, .raisesOther), (.queryFieldDeadEnd, .ignored), (.queryTop, .raisesOther), (.queryNot, .raisesOther), (.queryElemMatch, .raisesOther), (.updateOp, .implemented), (.updateNoMatch, .implemented), (.pushModifier, .raisesOther), (.addToSetModifier, .ignored), (.stage, .implemented), (.exprProject, .raisesOther), (.exprAddFields, .raisesOther), (.exprMatchExpr, .raisesOther), (.exprGroupId, .raisesOther), (.accumulator, .raisesNotImplemented), (.typeAlias, .raisesOther)]
 def dv_16 : List (Position × Disposition) :=
-  [(.queryField, .implemented), (.queryFieldDeadEnd, .implemented), (.queryTop, .ignored), (.queryNot, .implemented), (.queryElemMatch, .ignored), (.updateOp, .raisesOther), (.updateNoMatch, .ignored), (.pushModifier, .raisesOther), (.addToSetModifier, .ignored), (.stage, .raisesNotImplemented), (.exprProject, .implemented), (.exprAddFields, .implemented), (.exprMatchExpr, .implemented), (.exprGroupId, .implemented), (.accumulator, .raisesNotImplemented), (.typeAlias, .raisesOther)]
-def dv_17 : List (Position × Disposition) :=
   [(.queryField, .raisesOther), (.queryFieldDeadEnd, .ignored), (.queryTop, .raisesOther), (.queryNot, .raisesOther), (.queryElemMatch, .raisesOther), (.updateOp, .raisesOther), (.updateNoMatch, .ignored), (.pushModifier, .raisesOther), (.addToSetModifier, .ignored), (.stage, .implemented), (.exprProject, .raisesOther), (.exprAddFields, .raisesOther), (.exprMatchExpr, .raisesOther), (.exprGroupId, .raisesOther), (.accumulator, .raisesNotImplemented), (.typeAlias, .raisesOther)]
-def dv_18 : List (Position × Disposition) :=
+def dv_17 : List (Position × Disposition) :=
   [(.queryField, .raisesOther), (.queryFieldDeadEnd, .ignored), (.queryTop, .raisesOther), (.queryNot, .raisesOther), (.queryElemMatch, .raisesOther), (.updateOp, .raisesOther), (.updateNoMatch, .ignored), (.pushModifier, .implemented), (.addToSetModifier, .implemented), (.stage, .raisesNotImplemented), (.exprProject, .raisesOther), (.exprAddFields, .raisesOther), (.exprMatchExpr, .raisesOther), (.exprGroupId, .raisesOther), (.accumulator, .raisesNotImplemented), (.typeAlias, .raisesOther)]
-def dv_19 : List (Position × Disposition) :=
+def dv_18 : List (Position × Disposition) :=
   [(.queryField, .raisesOther), (.queryFieldDeadEnd, .ignored), (.queryTop, .raisesOther), (.queryNot, .raisesOther), (.queryElemMatch, .raisesOther), (.updateOp, .implemented), (.updateNoMatch, .implemented), (.pushModifier, .raisesOther), (.addToSetModifier, .ignored), (.stage, .raisesNotImplemented), (.exprProject, .raisesOther), (.exprAddFields, .raisesOther), (.exprMatchExpr, .raisesOther), (.exprGroupId, .raisesOther), (.accumulator, .implemented), (.typeAlias, .raisesOther)]
-def dv_20 : List (Position × Disposition) :=
+def dv_19 : List (Position × Disposition) :=
   [(.queryField, .raisesNotImplemented), (.queryFieldDeadEnd, .ignored), (.queryTop, .raisesOther), (.queryNot, .raisesOther), (.queryElemMatch, .raisesNotImplemented), (.updateOp, .raisesOther), (.updateNoMatch, .ignored), (.pushModifier, .raisesOther), (.addToSetModifier, .ignored), (.stage, .raisesNotImplemented), (.exprProject, .raisesOther), (.exprAddFields, .raisesOther), (.exprMatchExpr, .raisesOther), (.exprGroupId, .raisesOther), (.accumulator, .raisesNotImplemented), (.typeAlias, .raisesOther)]
-def dv_21 : List (Position × Disposition) :=
+def dv_20 : List (Position × Disposition) :=
   [(.queryField, .raisesOther), (.queryFieldDeadEnd, .ignored), (.queryTop, .raisesOther), (.queryNot, .raisesOther), (.queryElemMatch, .raisesOther), (.updateOp, .raisesOther), (.updateNoMatch, .ignored), (.pushModifier, .implemented), (.addToSetModifier, .ignored), (.stage, .implemented), (.exprProject, .raisesOther), (.exprAddFields, .raisesOther), (.exprMatchExpr, .raisesOther), (.exprGroupId, .raisesOther), (.accumulator, .raisesNotImplemented), (.typeAlias, .raisesOther)]
-def dv_22 : List (Position × Disposition) :=
+def dv_21 : List (Position × Disposition) :=
   [(.queryField, .raisesOther), (.queryFieldDeadEnd, .ignored), (.queryTop, .raisesNotImplemented), (.queryNot, .raisesOther), (.queryElemMatch, .raisesNotImplemented), (.updateOp, .raisesOther), (.updateNoMatch, .ignored), (.pushModifier, .raisesOther), (.addToSetModifier, .ignored), (.stage, .raisesNotImplemented), (.exprProject, .raisesOther), (.exprAddFields, .raisesOther), (.exprMatchExpr, .raisesOther), (.exprGroupId, .raisesOther), (.accumulator, .raisesNotImplemented), (.typeAlias, .raisesOther)]
-def dv_23 : List (Position × Disposition) :=
+def dv_22 : List (Position × Disposition) :=
   [(.queryField, .raisesOther), (.queryFieldDeadEnd, .ignored), (.queryTop, .raisesOther), (.queryNot, .raisesOther), (.queryElemMatch, .raisesOther), (.updateOp, .raisesOther), (.updateNoMatch, .ignored), (.pushModifier, .implemented), (.addToSetModifier, .ignored), (.stage, .raisesNotImplemented), (.exprProject, .implemented), (.exprAddFields, .implemented), (.exprMatchExpr, .implemented), (.exprGroupId, .implemented), (.accumulator, .raisesNotImplemented), (.typeAlias, .raisesOther)]
-def dv_24 : List (Position × Disposition) :=
+def dv_23 : List (Position × Disposition) :=
   [(.queryField, .raisesOther), (.queryFieldDeadEnd, .ignored), (.queryTop, .raisesOther), (.queryNot, .raisesOther), (.queryElemMatch, .raisesOther), (.updateOp, .raisesOther), (.updateNoMatch, .ignored), (.pushModifier, .implemented), (.addToSetModifier, .ignored), (.stage, .raisesNotImplemented), (.exprProject, .raisesOther), (.exprAddFields, .raisesOther), (.exprMatchExpr, .raisesOther), (.exprGroupId, .raisesOther), (.accumulator, .raisesNotImplemented), (.typeAlias, .raisesOther)]
-def dv_25 : List (Position × Disposition) :=
+def dv_24 : List (Position × Disposition) :=
   [(.queryField, .raisesOther), (.queryFieldDeadEnd, .ignored), (.queryTop, .raisesOther), (.queryNot, .raisesOther), (.queryElemMatch, .raisesOther), (.updateOp, .raisesOther), (.updateNoMatch, .ignored), (.pushModifier, .raisesOther), (.addToSetModifier, .ignored), (.stage, .raisesNotImplemented), (.exprProject, .raisesNotImplemented), (.exprAddFields, .raisesNotImplemented), (.exprMatchExpr, .raisesNotImplemented), (.exprGroupId, .raisesNotImplemented), (.accumulator, .implemented), (.typeAlias, .raisesOther)]
 
 def rows_0 : List Row := [
@@ -209,8 +207,8 @@ def rows_1 : List Row := [
   ⟨"$let", 1952803876, cls_15, dv_4⟩,
   ⟨"$set", 1952805668, cls_16, dv_15⟩,
   ⟨"$bit", 1953063460, cls_0, dv_0⟩,
-  ⟨"$not", 1953459748, cls_17, dv_16⟩,
-  ⟨"$out", 1953853220, cls_18, dv_17⟩,
+  ⟨"$not", 1953459748, cls_17, dv_3⟩,
+  ⟨"$out", 1953853220, cls_18, dv_16⟩,
   ⟨"$pow", 2003791908, cls_4, dv_4⟩,
   ⟨"$max", 2019650852, cls_11, dv_11⟩,
   ⟨"$box", 2020565540, cls_0, dv_0⟩]
@@ -223,11 +221,11 @@ def rows_2 : List Row := [
   ⟨"$type", 435678704676, cls_20, dv_9⟩,
   ⟨"$note", 435745156644, cls_0, dv_0⟩,
   ⟨"$size", 435845428004, cls_3, dv_3⟩,
-  ⟨"$each", 448343926052, cls_21, dv_18⟩,
+  ⟨"$each", 448343926052, cls_21, dv_17⟩,
   ⟨"$tanh", 448528479268, cls_0, dv_0⟩,
   ⟨"$sinh", 448529003300, cls_0, dv_0⟩,
   ⟨"$cosh", 448613278500, cls_0, dv_0⟩,
-  ⟨"$push", 448613675044, cls_22, dv_19⟩,
+  ⟨"$push", 448613675044, cls_22, dv_18⟩,
   ⟨"$week", 461262649124, cls_4, dv_4⟩,
   ⟨"$rank", 461413380644, cls_0, dv_0⟩,
   ⟨"$ceil", 465624720164, cls_4, dv_4⟩,
@@ -237,19 +235,19 @@ def rows_2 : List Row := [
   ⟨"$atan", 474081419556, cls_0, dv_0⟩,
   ⟨"$asin", 474215571748, cls_0, dv_0⟩,
   ⟨"$typo", 478628377636, cls_0, dv_0⟩,
-  ⟨"$skip", 482804986660, cls_18, dv_17⟩,
-  ⟨"$near", 491260309028, cls_24, dv_20⟩,
+  ⟨"$skip", 482804986660, cls_18, dv_16⟩,
+  ⟨"$near", 491260309028, cls_24, dv_19⟩,
   ⟨"$year", 491260311844, cls_4, dv_4⟩,
   ⟨"$expr", 491513210148, cls_25, dv_14⟩,
   ⟨"$hour", 491596507172, cls_4, dv_4⟩,
   ⟨"$acos", 495790022948, cls_0, dv_0⟩,
   ⟨"float", 499850898534, cls_1, dv_1⟩,
   ⟨"$hint", 500068608036, cls_0, dv_0⟩,
-  ⟨"$sort", 500136112932, cls_26, dv_21⟩,
+  ⟨"$sort", 500136112932, cls_26, dv_20⟩,
   ⟨"$sqrt", 500136244004, cls_4, dv_4⟩,
   ⟨"$last", 500151970852, cls_8, dv_8⟩,
   ⟨"$sett", 500169012004, cls_0, dv_0⟩,
-  ⟨"$text", 500236121124, cls_27, dv_22⟩,
+  ⟨"$text", 500236121124, cls_27, dv_21⟩,
   ⟨"regex", 517097350514, cls_10, dv_10⟩,
   ⟨"array", 521325933153, cls_6, dv_6⟩,
   ⟨"$log10", 52988746886180, cls_4, dv_4⟩,
@@ -257,15 +255,15 @@ def rows_2 : List Row := [
   ⟨"$trunc", 109326067987492, cls_4, dv_4⟩]
 def rows_3 : List Row := [
   ⟨"$round", 110425579418148, cls_0, dv_0⟩,
-  ⟨"$slice", 111477644882724, cls_28, dv_23⟩,
+  ⟨"$slice", 111477644882724, cls_28, dv_22⟩,
   ⟨"$range", 111494907916836, cls_13, dv_13⟩,
   ⟨"$merge", 111494975286564, cls_0, dv_0⟩,
   ⟨"Double", 111516182736708, cls_1, dv_1⟩,
   ⟨"double", 111516182736740, cls_6, dv_6⟩,
-  ⟨"$where", 111542002022180, cls_27, dv_22⟩,
+  ⟨"$where", 111542002022180, cls_27, dv_21⟩,
   ⟨"string", 113723913172083, cls_6, dv_6⟩,
   ⟨"$Match", 114776363584804, cls_0, dv_0⟩,
-  ⟨"$match", 114776363592996, cls_18, dv_17⟩,
+  ⟨"$match", 114776363592996, cls_18, dv_16⟩,
   ⟨"$eachh", 114797553214756, cls_0, dv_0⟩,
   ⟨"$atanh", 114823290708260, cls_0, dv_0⟩,
   ⟨"$asinh", 114823424860452, cls_0, dv_0⟩,
@@ -275,17 +273,17 @@ def rows_3 : List Row := [
   ⟨"symbol", 119225648511347, cls_10, dv_10⟩,
   ⟨"$ltrim", 120299659226148, cls_0, dv_0⟩,
   ⟨"$rtrim", 120299659227684, cls_0, dv_0⟩,
-  ⟨"$group", 123649683253028, cls_18, dv_17⟩,
+  ⟨"$group", 123649683253028, cls_18, dv_16⟩,
   ⟨"number", 125779768604014, cls_6, dv_6⟩,
   ⟨"$floor", 125822936311332, cls_4, dv_4⟩,
   ⟨"object", 127970252055151, cls_6, dv_6⟩,
-  ⟨"$facet", 127978807846436, cls_18, dv_17⟩,
+  ⟨"$facet", 127978807846436, cls_18, dv_16⟩,
   ⟨"$unset", 127979077137700, cls_7, dv_7⟩,
   ⟨"$shift", 127983203939108, cls_0, dv_0⟩,
   ⟨"$split", 127996139696932, cls_4, dv_4⟩,
-  ⟨"$limit", 127996156013604, cls_18, dv_17⟩,
+  ⟨"$limit", 127996156013604, cls_18, dv_16⟩,
   ⟨"$toInt", 128017027265572, cls_29, dv_13⟩,
-  ⟨"$count", 128017765458724, cls_18, dv_17⟩,
+  ⟨"$count", 128017765458724, cls_18, dv_16⟩,
   ⟨"$first", 128039189571108, cls_8, dv_8⟩,
   ⟨"$set.x", 132140916634404, cls_0, dv_0⟩,
   ⟨"$regex", 132376921731620, cls_20, dv_9⟩,
@@ -293,12 +291,12 @@ def rows_3 : List Row := [
   ⟨"maxKey", 133475964838253, cls_10, dv_10⟩,
   ⟨"$query", 133532235428132, cls_0, dv_0⟩,
   ⟨"binData", 27431033849669986, cls_6, dv_6⟩,
-  ⟨"$unwind", 28268896925414692, cls_18, dv_17⟩,
+  ⟨"$unwind", 28268896925414692, cls_18, dv_16⟩,
   ⟨"$second", 28268922359083812, cls_4, dv_4⟩,
   ⟨"$reduce", 28538328494469668, cls_13, dv_13⟩]
 def rows_4 : List Row := [
   ⟨"$divide", 28539376768738340, cls_4, dv_4⟩,
-  ⟨"$sample", 28548202775016228, cls_18, dv_17⟩,
+  ⟨"$sample", 28548202775016228, cls_18, dv_16⟩,
   ⟨"$rename", 28549237879173668, cls_23, dv_7⟩,
   ⟨"$toDate", 28556933756580900, cls_0, dv_0⟩,
   ⟨"$minute", 28557020360174884, cls_4, dv_4⟩,
@@ -309,7 +307,7 @@ def rows_4 : List Row := [
   ⟨"decimal", 30506420032202084, cls_10, dv_10⟩,
   ⟨"$ifNull", 30518548567058724, cls_4, dv_4⟩,
   ⟨"$toBool", 30521821131404324, cls_0, dv_0⟩,
-  ⟨"$lookup", 31654301683117092, cls_18, dv_17⟩,
+  ⟨"$lookup", 31654301683117092, cls_18, dv_16⟩,
   ⟨"integer", 32199642103180905, cls_1, dv_1⟩,
   ⟨"$filter", 32199698054473252, cls_4, dv_4⟩,
   ⟨"$center", 32199698087764772, cls_0, dv_0⟩,
@@ -317,7 +315,7 @@ def rows_4 : List Row := [
   ⟨"$exists", 32497661361284388, cls_30, dv_9⟩,
   ⟨"$concat", 32758176980886308, cls_4, dv_4⟩,
   ⟨"$redact", 32760367245783588, cls_0, dv_0⟩,
-  ⟨"$bucket", 32762609202979364, cls_18, dv_17⟩,
+  ⟨"$bucket", 32762609202979364, cls_18, dv_16⟩,
   ⟨"objectId", 7226435047344726639, cls_6, dv_6⟩,
   ⟨"$dateAdd", 7233978805463901220, cls_0, dv_0⟩,
   ⟨"$isoWeek", 7738702960912460068, cls_13, dv_13⟩,
@@ -332,7 +330,7 @@ def rows_4 : List Row := [
   ⟨"$toLower", 8243126012879008804, cls_4, dv_4⟩,
   ⟨"$options", 8317708060515659556, cls_0, dv_0⟩,
   ⟨"$existss", 8319120975722997028, cls_0, dv_0⟩,
-  ⟨"$project", 8386658438904705060, cls_18, dv_17⟩,
+  ⟨"$project", 8386658438904705060, cls_18, dv_16⟩,
   ⟨"$Comment", 8389754676499661604, cls_0, dv_0⟩,
   ⟨"$comment", 8389754676499669796, cls_31, dv_14⟩,
   ⟨"$convert", 8390880615077995300, cls_13, dv_13⟩,
@@ -352,13 +350,13 @@ def rows_5 : List Row := [
   ⟨"$integral", 1999270148415098349860, cls_0, dv_0⟩,
   ⟨"$setUnion", 2037169917232119378724, cls_4, dv_4⟩,
   ⟨"$function", 2037169923889219069476, cls_0, dv_0⟩,
-  ⟨"$position", 2037169923915072368676, cls_32, dv_24⟩,
+  ⟨"$position", 2037169923915072368676, cls_32, dv_23⟩,
   ⟨"timestamp", 2073917045117316589940, cls_10, dv_10⟩,
   ⟨"$isNumber", 2110234346299032037668, cls_4, dv_4⟩,
   ⟨"dbPointer", 2110239413897136202340, cls_10, dv_10⟩,
   ⟨"$comments", 2129765323153098105636, cls_0, dv_0⟩,
   ⟨"$subtract", 2146983443276997423908, cls_4, dv_4⟩,
-  ⟨"$addToSet", 2147123614379457929508, cls_22, dv_19⟩,
+  ⟨"$addToSet", 2147123614379457929508, cls_22, dv_18⟩,
   ⟨"$snapshot", 2147850105812604056356, cls_0, dv_0⟩,
   ⟨"$multiply", 2239869894221100313892, cls_4, dv_4⟩,
   ⟨"$geometry", 2240303361257172723492, cls_0, dv_0⟩,
@@ -373,23 +371,23 @@ def rows_5 : List Row := [
   ⟨"$dayOfWeek", 507163637236309032002596, cls_4, dv_4⟩,
   ⟨"$denseRank", 507329368294276305609764, cls_0, dv_0⟩,
   ⟨"$toDecimal", 511812798266980789351460, cls_29, dv_13⟩,
-  ⟨"$geoWithin", 521404748000101971355428, cls_24, dv_20⟩,
+  ⟨"$geoWithin", 521404748000101971355428, cls_24, dv_19⟩,
   ⟨"$currentOp", 530370728617921377297188, cls_0, dv_0⟩,
   ⟨"$xAIkNfDZp", 530570181761099024660516, cls_0, dv_0⟩,
   ⟨"$stdDevPop", 530958432606496727790372, cls_13, dv_13⟩,
   ⟨"$dayOfYear", 540146416203051663713316, cls_4, dv_4⟩]
 def rows_6 : List Row := [
-  ⟨"$addFields", 544924630702259951657252, cls_18, dv_17⟩,
+  ⟨"$addFields", 544924630702259951657252, cls_18, dv_16⟩,
   ⟨"$setEquals", 545071416533706904793892, cls_4, dv_4⟩,
   ⟨"$collStats", 545218990172003625820964, cls_0, dv_0⟩,
   ⟨"javascript", 549868145594002849554794, cls_10, dv_10⟩,
   ⟨"$returnKey", 573274900986320807883300, cls_0, dv_0⟩,
-  ⟨"$jsonSchema", 117782413092350802359708196, cls_27, dv_22⟩,
+  ⟨"$jsonSchema", 117782413092350802359708196, cls_27, dv_21⟩,
   ⟨"$searchMeta", 117815467713600834865820452, cls_0, dv_0⟩,
   ⟨"$toObjectId", 121239461699272704753890340, cls_0, dv_0⟩,
   ⟨"$unsetField", 121404468248642885247726884, cls_0, dv_0⟩,
   ⟨"$replaceOne", 122622432692765169568543268, cls_0, dv_0⟩,
-  ⟨"$nearSphere", 122641728206882858925911588, cls_24, dv_20⟩,
+  ⟨"$nearSphere", 122641728206882858925911588, cls_24, dv_19⟩,
   ⟨"$sampleRate", 122651097564536489201726244, cls_0, dv_0⟩,
   ⟨"$derivative", 122660692320298080686924836, cls_0, dv_0⟩,
   ⟨"$binarySize", 122679579415079922984116772, cls_0, dv_0⟩,
@@ -401,15 +399,15 @@ def rows_6 : List Row := [
   ⟨"$strcasecmp", 135916263281428256043332388, cls_4, dv_4⟩,
   ⟨"$uniqueDocs", 139496036054553128915072292, cls_0, dv_0⟩,
   ⟨"$indexStats", 139576061484046092101118244, cls_0, dv_0⟩,
-  ⟨"$bitsAllSet", 140713892982516354036359716, cls_24, dv_20⟩,
-  ⟨"$bitsAnySet", 140713893919828026482844196, cls_24, dv_20⟩,
+  ⟨"$bitsAllSet", 140713892982516354036359716, cls_24, dv_19⟩,
+  ⟨"$bitsAnySet", 140713893919828026482844196, cls_24, dv_19⟩,
   ⟨"$showDiskLoc", 30773567620260953088781218596, cls_0, dv_0⟩,
   ⟨"$millisecond", 31082008838509680444108795172, cls_4, dv_4⟩,
-  ⟨"$minDistance", 31378190906136157313651272996, cls_24, dv_20⟩,
-  ⟨"$maxDistance", 31378190906136157313818520868, cls_24, dv_20⟩,
+  ⟨"$minDistance", 31378190906136157313651272996, cls_24, dv_19⟩,
+  ⟨"$maxDistance", 31378190906136157313818520868, cls_24, dv_19⟩,
   ⟨"$currentDate", 31398680719348338991362827044, cls_23, dv_7⟩,
   ⟨"$replaceWith", 32327173877148409996016710180, cls_0, dv_0⟩,
-  ⟨"$graphLookup", 34804272769707718412734719780, cls_18, dv_17⟩,
+  ⟨"$graphLookup", 34804272769707718412734719780, cls_18, dv_16⟩,
   ⟨"$isoWeekYear", 35399035532649652219800676644, cls_13, dv_13⟩,
   ⟨"$accumulator", 35416031477272022781006143780, cls_0, dv_0⟩,
   ⟨"$strLenBytes", 35713427668590681080649249572, cls_13, dv_13⟩,
@@ -418,7 +416,7 @@ def rows_6 : List Row := [
   ⟨"$arrayElemAt", 35979357926420538493351649572, cls_4, dv_4⟩,
   ⟨"$setIsSubset", 36022907535437782436282725156, cls_13, dv_13⟩,
   ⟨"$sortByCount", 36033797548762715452169220900, cls_0, dv_0⟩,
-  ⟨"$replaceRoot", 36034977607871654524164076068, cls_18, dv_17⟩]
+  ⟨"$replaceRoot", 36034977607871654524164076068, cls_18, dv_16⟩]
 def rows_7 : List Row := [
   ⟨"$setOnInsert", 36038557771049438313762353956, cls_23, dv_7⟩,
   ⟨"$centerSphere", 8037448299766275047031017136932, cls_0, dv_0⟩,
@@ -427,11 +425,11 @@ def rows_7 : List Row := [
   ⟨"$isoDayOfWeek", 8508793889259199672522292554020, cls_13, dv_13⟩,
   ⟨"$regexFindAll", 8590144987052904696493224849956, cls_0, dv_0⟩,
   ⟨"$changeStream", 8666012402010875029600676111140, cls_0, dv_0⟩,
-  ⟨"$bitsAllClear", 9062153185345910729154893537828, cls_24, dv_20⟩,
-  ⟨"$bitsAnyClear", 9062153185346848040827340022308, cls_24, dv_20⟩,
+  ⟨"$bitsAllClear", 9062153185345910729154893537828, cls_24, dv_19⟩,
+  ⟨"$bitsAnyClear", 9062153185346848040827340022308, cls_24, dv_19⟩,
   ⟨"$indexOfBytes", 9142637483158631751766825134372, cls_13, dv_13⟩,
   ⟨"$listSessions", 9145416728964895418491645553700, cls_0, dv_0⟩,
-  ⟨"$mergeObjects", 9147259112857270333399156223268, cls_33, dv_25⟩,
+  ⟨"$mergeObjects", 9147259112857270333399156223268, cls_33, dv_24⟩,
   ⟨"$concatArrays", 9148804181590708568935088743204, cls_4, dv_4⟩,
   ⟨"$dateSubtract", 9221223673928174969857861837860, cls_0, dv_0⟩,
   ⟨"$reverseArray", 9616766067278219112541969543716, cls_13, dv_13⟩,
@@ -439,7 +437,7 @@ def rows_7 : List Row := [
   ⟨"$setDifference", 2056401124050539290174906045920036, cls_13, dv_13⟩,
   ⟨"$caseSensitive", 2057904929804906032309712292242212, cls_0, dv_0⟩,
   ⟨"$covariancePop", 2280449083019914360557480235197220, cls_0, dv_0⟩,
-  ⟨"$geoIntersects", 2341698332934259241097904292980516, cls_24, dv_20⟩,
+  ⟨"$geoIntersects", 2341698332934259241097904292980516, cls_24, dv_19⟩,
   ⟨"$dateFromParts", 2341702970208328942163742639088676, cls_4, dv_4⟩,
   ⟨"$arrayToObject", 2360634488708892003875619700105508, cls_4, dv_4⟩,
   ⟨"$objectToArray", 2461892113223406327026744121519908, cls_4, dv_4⟩,
@@ -469,7 +467,7 @@ def vocab : List Entry := entriesOf rows
 /-- known findings (known_findings.json): positions at which every unknown name is accepted silently -/
 def knownIgnoredPositions : List Position := [.queryFieldDeadEnd, .updateNoMatch, .addToSetModifier]
 
-/-- known findings (known_findings.json): single (position, name) pairs: queryTop $not, queryElemMatch $not -/
-def knownIgnoredPairs : List (Position × Code) := [(.queryTop, 1953459748), (.queryElemMatch, 1953459748)]
+/-- known findings (known_findings.json): single (position, name) pairs:  -/
+def knownIgnoredPairs : List (Position × Code) := []
 
 end Generated
